@@ -2,7 +2,7 @@
    a case is an operation name and a list of generic arguments; the answer is a generic
    output value.  The OCaml driver (eval/driver.ml) only parses / prints these types. *)
 From Coq Require Import String.
-From ArrRs Require Import Base Arr Index Axis Broadcast Lift Split Reduce Sort Join.
+From ArrRs Require Import Base Arr Index Axis Broadcast Lift Split Reduce Sort Join Reorder.
 Open Scope string_scope.
 Open Scope list_scope.
 
@@ -362,9 +362,23 @@ Definition table_join : list (string * (list arg -> out)) :=
   ; ("column_stack", fun args => match args with [AAs l] => orarr (column_stack (mkas l)) | _ => OBad end)
   ].
 
+(* ---- C12: flip, roll, rot90 ---- *)
+Definition table_reorder : list (string * (list arg -> out)) :=
+  [ ("flip", fun args => match args with
+       | [AA s e; ax] => match optl ax with Some ax => orarr (flip 0%Z (mka s e) ax) | None => OBad end
+       | _ => OBad end)
+  ; ("flipud", fun args => match args with [AA s e] => orarr (flipud 0%Z (mka s e)) | _ => OBad end)
+  ; ("fliplr", fun args => match args with [AA s e] => orarr (fliplr 0%Z (mka s e)) | _ => OBad end)
+  ; ("roll", fun args => match args with
+       | [AA s e; AL sh; ax] => match optl ax with Some ax => orarr (roll 0%Z (mka s e) sh ax) | None => OBad end
+       | _ => OBad end)
+  ; ("rot90", fun args => match args with
+       | [AA s e; AZ k; AL ax] => orarr (rot90 0%Z (mka s e) (Z.to_nat k) ax) | _ => OBad end)
+  ].
+
 Definition table : list (string * (list arg -> out)) :=
   table_index ++ table_axis ++ table_broadcast ++ table_ew2 ++ table_ew1 ++ table_ops ++ table_reduce ++ table_sort
-  ++ table_join.
+  ++ table_join ++ table_reorder.
 
 Fixpoint lookup (name : string) (t : list (string * (list arg -> out))) : option (list arg -> out) :=
   match t with
